@@ -446,6 +446,13 @@ class GaussSystem:
                 ctx.fail("graph.mass.not_integrable", "value", facts=facts)
                 return False
             ident[r] = rm.ln_integral(L, n, c)
+            if rm.identification_noise(vals[r], L, n) > 1e-10 * lscale:
+                # mode far from the origin: the origin lattice cannot resolve the mass to 1e-8*lscale; probe around the mode
+                with ctx.guard("graph.mass.evaluate", facts) as gd:
+                    ident[r], resid2 = rm.ln_integral_recentred(lambda P, r=r: np.asarray(o.evaluate_ln(J(P)))[r], D, L, n)
+                if not gd.ok:
+                    return False
+                ctx.count("mass_oracle_recentred")
         for name, fn, islog in (("log_integral_light", lambda q: q.log_integral_light(), True), ("log_integral", lambda q: q.log_integral(), True), ("integral_light", lambda q: q.integral_light(), False), ("integral", lambda q: q.integral(), False), ("integrate1", lambda q: q.integrate("1"), False)):
             q = copy.copy(obj)
             with ctx.guard("graph.mass." + name, facts) as gd:
